@@ -38,6 +38,7 @@ def matches_x(text: str) -> bool:
 @invariant(lambda self: self.a is None or len(self.c) >= 3, "A implies c is long.")
 @invariant(lambda self: len(self.d) <= 5, "D is short.")
 @invariant(lambda self: len(self.d) >= 4, "D is not too short.")
+@serialization(with_model_type=True)
 class Something(DBC):
     b: str
     c: str
@@ -49,6 +50,38 @@ class Something(DBC):
         self.b = b
         self.c = c
         self.d = d
+
+
+__version__ = "dummy"
+__xml_namespace__ = "https://dummy.com"
+''',
+    ),
+    (
+        "targeted/astral-character-vs-dot-and-complemented-set",
+        '''
+@verification
+def matches_two(text: str) -> bool:
+    """Check the text."""
+    pattern = f"^[^ab]{{2}}$"
+    return match(pattern, text) is not None
+
+
+@verification
+def matches_one(text: str) -> bool:
+    """Check the text."""
+    pattern = f"^.x?$"
+    return match(pattern, text) is not None
+
+
+@invariant(lambda self: matches_two(self.b), "B has two characters.")
+@invariant(lambda self: matches_one(self.c), "C has one character and maybe an x.")
+class Something(DBC):
+    b: str
+    c: str
+
+    def __init__(self, b: str, c: str) -> None:
+        self.b = b
+        self.c = c
 
 
 __version__ = "dummy"
